@@ -40,7 +40,7 @@ ERR_SHORT = {"org.freedesktop.DBus.Error.ServiceUnknown": "ServiceUnknown", "org
              "org.freedesktop.DBus.Error.AccessDenied": "AccessDenied", "org.freedesktop.DBus.Error.LimitsExceeded": "LimitsExceeded",
              "org.freedesktop.DBus.Error.InvalidArgs": "InvalidArgs", "org.freedesktop.DBus.Error.Spawn.ChildExited": "ChildExited",
              "org.freedesktop.DBus.Error.Spawn.ChildSignaled": "ChildSignaled", "org.freedesktop.DBus.Error.Spawn.ExecFailed": "ExecFailed",
-             "org.freedesktop.DBus.Error.TimedOut": "TimedOut"}
+             "org.freedesktop.DBus.Error.TimedOut": "TimedOut", "org.freedesktop.DBus.Error.NotSupported": "NotSupported"}
 
 
 def bus_name(tok, off=1):
@@ -59,8 +59,8 @@ def exec_line(kind, xid, ctl, log):
 class Local:
     """a connection held by the harness itself"""
 
-    def __init__(self, address):
-        self.c = rawbus.RawConn(address)
+    def __init__(self, address, want_fds=False):
+        self.c = rawbus.RawConn(address, want_fds=want_fds)
         self.c.serial = HIGH
         self.dead = False
 
@@ -68,15 +68,21 @@ class Local:
         self.c.hello()
         return self.c.unique
 
-    def send(self, m):
+    def send(self, m, fds=()):
         try:
-            self.c.send_raw(m.encode())
+            self.c.send_raw(m.encode(), fds)
         except OSError:
             pass
 
     def sync(self):
         r = self.c.barrier()
         msgs, self.c.inbox = self.c.inbox, []
+        for m in msgs:
+            for fd in getattr(m, "fds", []):
+                try:
+                    os.close(fd)
+                except OSError:
+                    pass
         return msgs, r is None
 
     def close(self):
@@ -110,12 +116,12 @@ class Stub:
             return None
         return json.loads(line)
 
-    def hello(self):
-        r = self.cmd({"op": "hello"})
+    def hello(self, want_fds=False):
+        r = self.cmd({"op": "hello", "fds": bool(want_fds)})
         self.has_conn = True
         return r["unique"] if r else None
 
-    def send(self, m):
+    def send(self, m, fds=()):
         self.cmd({"op": "send", "hex": m.encode().hex()})
 
     def sync(self):
@@ -181,8 +187,10 @@ class Run:
         self.ctl = socket.socket(socket.AF_UNIX, socket.SOCK_STREAM)
         self.ctl.bind(self.ctl_path)
         self.ctl.listen(16)
-        limits = '<limit name="max_pending_service_starts">%d</limit><limit name="service_start_timeout">%d</limit>' % (
-            maxp, TIMEOUT_MS if timed else 600000)
+        maxp, maxrep = maxp if isinstance(maxp, (tuple, list)) else (maxp, 1000)
+        limits = '<limit name="max_pending_service_starts">%d</limit><limit name="service_start_timeout">%d</limit>' \
+                 '<limit name="max_replies_per_connection">%d</limit>' % (maxp, TIMEOUT_MS if timed else 600000, maxrep)
+        self.devnull = os.open("/dev/null", os.O_RDONLY)
         self.d = rawbus.Daemon(exe, policy=POLICY, limits=limits, servicedirs="<servicedir>%s</servicedir>" % self.sd)
         self.obs = self.connect_raw()
         self.obs.serial = HIGH
@@ -296,11 +304,14 @@ class Run:
     # ---- one event
     def message(self, c, kind, serial, name, cl):
         if kind in "ABU":
-            f = {F_PATH: "/t", F_INTERFACE: "t.I", F_MEMBER: MEMBER[cl], F_DESTINATION: bus_name(name)}
+            # class = policy class + 4 (carries a unix fd) + 8 (method call that expects a reply; otherwise NO_REPLY_EXPECTED)
+            f = {F_PATH: "/t", F_INTERFACE: "t.I", F_MEMBER: MEMBER[cl & 3], F_DESTINATION: bus_name(name)}
+            sig, body = ("uh", (serial, 0)) if cl & 4 else ("u", (serial,))
+            if cl & 4:
+                f[rawbus.F_UNIX_FDS] = 1
             if kind == "B":
-                return Msg(SIGNAL, 0, serial, f, "u", (serial,))
-            # odd serials carry NO_REPLY_EXPECTED (the caller then gets no NoReply error when the service goes away: that is C09's subject)
-            return Msg(METHOD_CALL, (2 if kind == "U" else 0) | (serial & 1), serial, f, "u", (serial,))
+                return Msg(SIGNAL, 0, serial, f, sig, body)
+            return Msg(METHOD_CALL, (2 if kind == "U" else 0) | (0 if cl & 8 else 1), serial, f, sig, body)
         f = {F_PATH: "/org/freedesktop/DBus", F_INTERFACE: BUS, F_DESTINATION: BUS}
         if kind == "S":
             f[F_MEMBER] = "StartServiceByName"
@@ -351,17 +362,17 @@ class Run:
         p = tok.split(".")
         k = p[0]
         failed_two_steps_ago, self.failed_prev = self.failed_prev, self.count_log(r"Activated service '[^']*' failed")
-        if k == "C":
-            cl = Local(self.d.address)
+        if k in ("C", "CF"):
+            cl = Local(self.d.address, want_fds=(k == "CF"))
             u = cl.hello()
             if u != ":1.%d" % (len(self.conns) + 1):
                 raise IOError("unexpected unique name %r" % u)
             self.conns.append(cl)
-        elif k == "K":
+        elif k in ("K", "KF"):
             st = self.stubs[int(p[1])] if int(p[1]) < len(self.stubs) else None
             if st is None or st.gone or st.has_conn:
                 raise IOError("ill-formed K event")
-            u = st.hello()
+            u = st.hello(want_fds=(k == "KF"))
             if u != ":1.%d" % (len(self.conns) + 1):
                 raise IOError("unexpected unique name %r" % u)
             self.conns.append(st)
@@ -373,7 +384,7 @@ class Run:
                 self.kinds[(c, serial)] = "s"
             elif k in "RL":
                 self.kinds[(c, serial)] = "d"
-            self.conns[c].send(self.message(c, k, serial, name, clno))
+            self.conns[c].send(self.message(c, k, serial, name, clno), [self.devnull] if (k in "ABU" and clno & 4) else ())
         elif k == "Z":
             c, serial = int(p[1]), int(p[2])
             self.kinds[(c, serial)] = "d"
